@@ -28,6 +28,8 @@ FAMILIES = {
     "distshapes": dict(seed=121, n=1500, gen="Shapes2", opts={"only_shapes": ["having_topn", "topn_offset", "agg_wide"]}),
     "subq2": dict(seed=122, n=1500, gen="Shapes2", opts={"only_shapes": ["corr_exists_noneq", "corr_exists_or"]}),
     "cte2": dict(seed=123, n=1500, gen="Shapes2", opts={"only_shapes": ["cte_multi", "cte_semi"]}),
+    "samecols": dict(seed=133, n=800, gen="Shapes2", opts={"only_shapes": ["samecols_semi"]}),
+    "unionjoin": dict(seed=131, n=600, gen="Shapes2", opts={"only_shapes": ["union_join_str"]}),
     "setop3": dict(seed=124, n=1500, gen="Shapes2", opts={"only_shapes": ["setop_chain"]}),
     "aggwide": dict(seed=125, n=1000, gen="Shapes2", opts={"only_shapes": ["agg_wide"]}),
     "noalias": dict(seed=126, n=2500, opts={**OFF, "joins": False, "group": True, "group_p": 0.5, "having": True, "alias_p": 0.0, "tables": 1, "max_rows": 8,
